@@ -25,7 +25,8 @@ type vbcMembership struct {
 	cm    []interfaces.CommitteeMember
 	err   bool
 	h     primitives.BlockHeight      // the height cm is the committee of
-	decoy []interfaces.CommitteeMember // what Membership answers for every other height
+	t     primitives.TimestampSeconds // ... as of this reference time of the previous block
+	decoy []interfaces.CommitteeMember // what Membership answers for every other height or reference time
 }
 
 func (m *vbcMembership) MyMemberId() primitives.MemberId { return m.me }
@@ -36,8 +37,8 @@ func (m *vbcMembership) RequestCommitteeForBlockProof(ctx context.Context, h pri
 	if m.err {
 		return nil, errors.New("committee unavailable")
 	}
-	if m.decoy != nil && h != m.h {
-		return m.decoy, nil // committees differ from height to height: only the block's own height gives the right one
+	if m.decoy != nil && (h != m.h || t != m.t) {
+		return m.decoy, nil // committees change with height and time: only the block's own height and its parent's time give the right one
 	}
 	return m.cm, nil
 }
@@ -285,6 +286,18 @@ func runVBC(cfg *runCfg) error {
 			}
 			if prevBlk != nil {
 				rep.count(fmt.Sprintf("prevblock:height-delta-%d", int64(uint64(prevBlk.Height()))-int64(h)))
+			}
+			if prevBlk != nil {
+				mem.t = prevBlk.ReferenceTime()
+			}
+			if r.Intn(2) == 0 {
+				// an earlier call on the same node for the same height with a previous block of another time (any verdict):
+				// a validation must not depend on the calls before it
+				func() {
+					defer func() { recover() }()
+					node.ValidateBlockConsensus(ctx, block, bytesP, &vblock{height: primitives.BlockHeight(h + 7), id: 93}, prevProof, soft)
+				}()
+				rep.count("prior-call-same-height-other-committee")
 			}
 			verdict = node.ValidateBlockConsensus(ctx, block, bytesP, prevBlk, prevProof, soft) == nil
 		}()
